@@ -658,6 +658,11 @@ def _sop(e):
                 facs(x.right)
             elif isinstance(x, ast.Name):
                 fs.append(x.id)
+            elif isinstance(x, ast.Subscript) and isinstance(x.value, ast.Name) and all(
+                    (isinstance(i, ast.Slice) and i.lower is None and i.upper is None and i.step is None)
+                    or pf.src(i) in NEWAXIS or (isinstance(i, ast.Constant) and i.value is Ellipsis)
+                    for i in (x.slice.elts if isinstance(x.slice, ast.Tuple) else [x.slice])):
+                fs.append(x.value.id)  # an added axis only broadcasts: k[..., None]
             elif isinstance(x, ast.Attribute) and x.attr == "T" and isinstance(x.value, ast.Name):
                 fs.append(x.value.id + ".T")
             else:
@@ -810,6 +815,18 @@ def rule_pol_kernel(chk, prog):
             continue
         x = spins.pop()
         seen_spins.add(x)
+        # rank agreement: a gradient block (Nsamp, Nctrl, N1) times a value block (Nsamp, Nctrl) needs an added trailing
+        # axis on the value block (as DiffProduct.k_and_deriv writes it); the product-rule verdict below is independent
+        bare = sorted({y.id for y in ast.walk(st.value) if isinstance(y, ast.Name) and y.id in calls and y.id not in derivs
+                       and not isinstance(pf.parent(y), ast.Subscript)})
+        if bare:
+            chk.violation("pol-kernel", DKR, "DFTKernel.get_k_and_deriv", "rank of value blocks in " + nm, st.lineno,
+                          "`%s` multiplies rank-3 gradient blocks by the rank-2 value blocks %s without an added "
+                          "trailing axis: broadcasting aligns (Nctrl, N1) with (Nsamp, Nctrl) and raises ValueError "
+                          "unless the sizes coincide" % (pf.src(st), ", ".join(bare)),
+                          instance="DFTKernel.get_k_and_deriv: %s broadcasts value blocks over the feature axis" % nm)
+        else:
+            chk.ok("pol-kernel", "DFTKernel.get_k_and_deriv: %s broadcasts value blocks over the feature axis" % nm)
         expect = set()
         for t in comb[1]:
             for f in t:
@@ -2307,6 +2324,254 @@ def rule_isotropic_index(chk, uni):
 
 
 # ----------------------------------------------------------------------------
+# composite kernels: k_and_deriv is the same function of the child kernel values as __call__, and its input
+# gradient is the chain rule of that function
+# ----------------------------------------------------------------------------
+_NP_IDENT = {"asarray", "ascontiguousarray", "array", "asanyarray"}
+_NP_BIN = {"add": "add", "multiply": "mul", "power": "pow", "subtract": "sub", "divide": "div", "true_divide": "div"}
+
+
+def _gradient_branch(node, fn):
+    """True when `node` lies in a branch taken only for eval_gradient=True"""
+    ps = [a.arg for a in fn.args.args + fn.args.kwonlyargs]
+    if "eval_gradient" not in ps:
+        return False
+    ch, p = node, pf.parent(node)
+    while p is not None and p is not fn:
+        if isinstance(p, ast.If):
+            t, pol = p.test, True
+            while isinstance(t, ast.UnaryOp) and isinstance(t.op, ast.Not):
+                t, pol = t.operand, not pol
+            if isinstance(t, ast.Name) and t.id == "eval_gradient":
+                in_body = any(ch is s for s in p.body)
+                in_else = any(ch is s for s in p.orelse)
+                if (in_body and pol) or (in_else and not pol):
+                    return True
+        ch, p = p, pf.parent(p)
+    return False
+
+
+class _Sym:
+    """expression -> canonical term over child kernel values, child gradients, self attributes and constants"""
+
+    def __init__(self, uni, mod, cls, fn):
+        self.fn = fn
+        self.rkr = Ranker(fn)
+        self.ctor = uni.ctor_params(mod, cls)
+        self.defs = {}
+        for nm, ds in fn_defs(fn).items():
+            self.defs[nm] = [(st, v, t) for st, v, t in ds if not _gradient_branch(st, fn)]
+        self._busy = set()
+
+    def child(self, call):
+        """('child'|'dpair', attr, args) for self.<attr>(...) / self.<attr>.k_and_deriv(...)"""
+        f = call.func
+        if pf.is_self_attr(f) and f.attr in self.ctor:
+            return ("child", f.attr, call_args_sig(call, False, self.rkr))
+        if isinstance(f, ast.Attribute) and f.attr == "k_and_deriv" and pf.is_self_attr(f.value) and f.value.attr in self.ctor:
+            return ("dpair", f.value.attr, call_args_sig(call, False, self.rkr))
+        return None
+
+    def flat(self, op, items):
+        out = []
+        for i in items:
+            if i[0] == op:
+                out += list(i[1:])
+            else:
+                out.append(i)
+        return (op,) + tuple(sorted(out, key=repr))
+
+    def sym(self, e):
+        if isinstance(e, ast.Constant):
+            return ("const", e.value)
+        if isinstance(e, ast.Name):
+            ds = self.defs.get(e.id, [])
+            if len(ds) != 1 or e.id in self._busy or isinstance(ds[0][0], (ast.For, ast.AugAssign)):
+                return ("opaque", e.id)
+            st, v, t = ds[0]
+            if isinstance(t, ast.Subscript):
+                return ("opaque", e.id)
+            self._busy.add(e.id)
+            try:
+                if isinstance(st, ast.Assign) and isinstance(st.targets[0], (ast.Tuple, ast.List)):
+                    elts = st.targets[0].elts
+                    c = self.child(v) if isinstance(v, ast.Call) else None
+                    if c is not None and c[0] == "dpair" and len(elts) == 2 and len(st.targets) == 1:
+                        i = next((k for k, x in enumerate(elts) if x is t), None)
+                        if i is not None:
+                            return ("child" if i == 0 else "dchild", c[1], c[2])
+                    return ("opaque", e.id)
+                return self.sym(v)
+            finally:
+                self._busy.discard(e.id)
+        if pf.is_self_attr(e):
+            return ("attr", e.attr)
+        if isinstance(e, ast.BinOp):
+            a, b = self.sym(e.left), self.sym(e.right)
+            if isinstance(e.op, ast.Add):
+                return self.flat("add", [a, b])
+            if isinstance(e.op, ast.Mult):
+                return self.flat("mul", [a, b])
+            for k, nm in ((ast.Sub, "sub"), (ast.Div, "div"), (ast.Pow, "pow")):
+                if isinstance(e.op, k):
+                    return (nm, a, b)
+            return ("opaque", pf.src(e))
+        if isinstance(e, ast.UnaryOp) and isinstance(e.op, ast.USub):
+            return ("neg", self.sym(e.operand))
+        if isinstance(e, ast.UnaryOp) and isinstance(e.op, ast.UAdd):
+            return self.sym(e.operand)
+        if isinstance(e, ast.Subscript):
+            idx = e.slice.elts if isinstance(e.slice, ast.Tuple) else [e.slice]
+            if all((isinstance(i, ast.Slice) and i.lower is None and i.upper is None and i.step is None)
+                   or pf.src(i) in NEWAXIS or (isinstance(i, ast.Constant) and i.value is Ellipsis) for i in idx):
+                return self.sym(e.value)  # broadcasting only
+            return ("opaque", pf.src(e))
+        if isinstance(e, ast.Call):
+            c = self.child(e)
+            if c is not None and c[0] == "child":
+                return c
+            cn = pf.call_name(e) or ""
+            last = cn.split(".")[-1]
+            if isinstance(e.func, ast.Attribute) and e.func.attr == "copy" and not e.args:
+                return self.sym(e.func.value)
+            if cn.startswith(("np.", "numpy.")) and not e.keywords:
+                if last in _NP_IDENT and len(e.args) == 1:
+                    return self.sym(e.args[0])
+                if last in _NP_BIN and len(e.args) == 2:
+                    a, b = self.sym(e.args[0]), self.sym(e.args[1])
+                    return self.flat(_NP_BIN[last], [a, b]) if _NP_BIN[last] in ("add", "mul") else (_NP_BIN[last], a, b)
+                if e.args and not any(isinstance(a, ast.Starred) for a in e.args):
+                    return ("call", last) + tuple(self.sym(a) for a in e.args)
+            return ("opaque", pf.src(e)[:60])
+        return ("opaque", pf.src(e)[:60])
+
+
+def _has(t, kind):
+    return isinstance(t, tuple) and (t[0] == kind or any(_has(x, kind) for x in t[1:]))
+
+
+def _fmt_sym(t):
+    if not isinstance(t, tuple):
+        return repr(t)
+    k = t[0]
+    if k == "const":
+        return repr(t[1])
+    if k in ("child", "dchild"):
+        return ("K[%s]" if k == "child" else "dK[%s]") % t[1]
+    if k == "attr":
+        return "self." + t[1]
+    if k == "opaque":
+        return "<%s>" % t[1]
+    if k in ("add", "mul"):
+        return "(" + (" + " if k == "add" else " * ").join(_fmt_sym(x) for x in t[1:]) + ")"
+    if k in ("sub", "div", "pow"):
+        return "(%s %s %s)" % (_fmt_sym(t[1]), {"sub": "-", "div": "/", "pow": "**"}[k], _fmt_sym(t[2]))
+    if k == "neg":
+        return "-" + _fmt_sym(t[1])
+    if k == "call":
+        return "%s(%s)" % (t[1], ", ".join(_fmt_sym(x) for x in t[2:]))
+    return str(t)
+
+
+def _chain(S, t):
+    """d t / d X by the chain rule over the child gradients; None when t leaves the (+, -, *, /, **) algebra"""
+    k = t[0]
+    if k == "child":
+        return ("dchild", t[1], t[2])
+    if k in ("const", "attr"):
+        return ("const", 0)
+    if not _has(t, "child"):
+        return ("const", 0) if not _has(t, "opaque") else None
+    if k == "add":
+        parts = [_chain(S, x) for x in t[1:]]
+        if any(p is None for p in parts):
+            return None
+        parts = [p for p in parts if p != ("const", 0)]
+        return parts[0] if len(parts) == 1 else S.flat("add", parts)
+    if k == "mul":
+        terms = []
+        for i, x in enumerate(t[1:]):
+            d = _chain(S, x)
+            if d is None:
+                return None
+            if d == ("const", 0):
+                continue
+            rest = [y for j, y in enumerate(t[1:]) if j != i]
+            terms.append(S.flat("mul", rest + [d]))
+        return terms[0] if len(terms) == 1 else S.flat("add", terms)
+    if k == "pow" and not _has(t[2], "child"):
+        d = _chain(S, t[1])
+        if d is None:
+            return None
+        return S.flat("mul", [t[2], ("pow", t[1], ("sub", t[2], ("const", 1))), d])
+    if k == "neg":
+        d = _chain(S, t[1])
+        return None if d is None else ("neg", d)
+    if k == "sub":
+        a, b = _chain(S, t[1]), _chain(S, t[2])
+        if a is None or b is None:
+            return None
+        if b == ("const", 0):
+            return a
+        return ("sub", a, b) if a != ("const", 0) else ("neg", b)
+    return None
+
+
+def rule_composite(chk, uni):
+    km = uni.km
+    for cname, cls in km.classes.items():
+        dfn = pf.methods(cls).get("k_and_deriv")
+        if dfn is None or _only_raises(dfn):
+            continue
+        rets = [r for r in pf.walk_no_nested(dfn) if isinstance(r, ast.Return) and r.value is not None]
+        if len(rets) != 1 or not (isinstance(rets[0].value, ast.Tuple) and len(rets[0].value.elts) == 2):
+            continue
+        SD = _Sym(uni, km, cls, dfn)
+        dval = SD.sym(rets[0].value.elts[0])
+        if not _has(dval, "child"):
+            continue  # not a function of child kernels
+        inst = "%s: k_and_deriv returns the same function of the child kernel values as __call__" % cname
+        r = uni.find_method(km, cls, "__call__")
+        if r is None:
+            chk.note("composite-value", "%s.k_and_deriv" % cname, "no __call__ in the MRO")
+            continue
+        vmod, vcls, vfn = r
+        vrets = [x for x in pf.walk_no_nested(vfn) if isinstance(x, ast.Return) and x.value is not None
+                 and not _gradient_branch(x, vfn)]
+        SV = _Sym(uni, vmod, cls if vmod is km else vcls, vfn)
+        SV.ctor = SD.ctor
+        vvals = {SV.sym(x.value) for x in vrets}
+        if len(vvals) != 1 or _has(dval, "opaque") or any(_has(v, "opaque") for v in vvals):
+            chk.note("composite-value", "%s.k_and_deriv" % cname, "not comparable symbolically: %s vs %s"
+                     % (_fmt_sym(dval), " | ".join(sorted(_fmt_sym(v) for v in vvals))))
+        else:
+            vval = vvals.pop()
+            if vval == dval:
+                chk.ok("composite-value", inst, detail=_fmt_sym(dval))
+            else:
+                chk.violation("composite-value", KR, "%s.k_and_deriv" % cname, "value " + _fmt_sym(dval), rets[0].lineno,
+                              "%s.__call__ (%s) returns %s of its child kernels, but the value returned by k_and_deriv "
+                              "is %s: k_and_deriv(X, Y)[0] != kernel(X, Y) wherever the two expressions differ, and the "
+                              "returned gradient belongs to a different function"
+                              % (vcls.name, "sklearn" if vmod is not km else "kernels.py", _fmt_sym(vval), _fmt_sym(dval)),
+                              instance=inst)
+        # chain rule of the returned value
+        inst = "%s: the input gradient of k_and_deriv is the chain rule of its value over the child gradients" % cname
+        want = _chain(SD, dval) if not _has(dval, "opaque") else None
+        got = SD.sym(rets[0].value.elts[1])
+        if want is None or _has(got, "opaque"):
+            chk.note("composite-chain", "%s.k_and_deriv" % cname, "gradient not in the (+, -, *, /, **) algebra of the "
+                     "child gradients: %s" % _fmt_sym(got))
+            continue
+        if got == want:
+            chk.ok("composite-chain", inst, detail=_fmt_sym(got))
+        else:
+            chk.violation("composite-chain", KR, "%s.k_and_deriv" % cname, "gradient " + _fmt_sym(got), rets[0].lineno,
+                          "the value is %s, whose derivative by the chain rule is %s; the returned input gradient is %s"
+                          % (_fmt_sym(dval), _fmt_sym(want), _fmt_sym(got)), instance=inst)
+
+
+# ----------------------------------------------------------------------------
 def analyse(chk):
     tree = chk.tree
     uni = Universe(tree)
@@ -2324,6 +2589,11 @@ def analyse(chk):
     chk.rule("units-input", "E-deg: unit(d k/d X) == unit(k) / unit(X) for k_and_deriv, incl. composites with symbolic units")
     chk.rule("units-hyper", "E-deg: unit(d k/d log theta) == unit(k) for __call__(eval_gradient=True)")
     chk.guard(rule_siblings, uni, alias)
+    chk.rule("composite-value", "k_and_deriv of a composite kernel returns the same function of the child kernel values as __call__")
+    chk.rule("composite-chain", "the input gradient of a composite kernel is the chain rule of its value over the child gradients")
+    chk.guard(rule_composite, uni)
+    chk.floor("composite-value", 2, "DiffSum, DiffProduct, DiffExponentiation, DiffTransform")
+    chk.floor("composite-chain", 1, "DiffSum, DiffProduct, DiffExponentiation")
     chk.guard(rule_pol_kernel, prog)
     chk.guard(rule_lock, uni)
     chk.guard(rule_attrs, uni, prog)
@@ -2585,6 +2855,13 @@ def _revert_partial_rbf(text):
 
 def mutants(tree):
     return [
+        # composite algebra
+        Mutant("exponentiation value from |k|", KR, "            k**self.exponent,\n", "            np.abs(k)**self.exponent,\n",
+               expect="composite-value"),
+        Mutant("exponentiation prefactor from |k|", KR, "(self.exponent * k ** (self.exponent - 1))",
+               "(self.exponent * np.abs(k) ** (self.exponent - 1))", expect="composite-chain"),
+        Mutant("product rule weights |k1|", KR, "k1[..., None] * dk2 + k2[..., None] * dk1",
+               "np.abs(k1)[..., None] * dk2 + k2[..., None] * dk1", expect="composite-chain"),
         # units (E-deg)
         Mutant("RBF input gradient / length_scale instead of **2", KR, "        dk /= self.length_scale**2\n",
                "        dk /= self.length_scale\n", expect="units-input"),
@@ -2642,11 +2919,14 @@ def mutants(tree):
         Mutant("SingleRBF-style override gains an inherited k_and_deriv", KR,
                "class SingleRBF(RBF):", "class SingleRBF(DiffRBF):", expect="sibling-override"),
         # polarised kernel
+        Mutant("polarised gradient: value block without the added feature axis (reverts 5a1bff3)", DKR,
+               "dkdX1b = dkbb * kaa[..., None] + dkba * kab[..., None]", "dkdX1b = dkbb * kaa + dkba * kab[..., None]",
+               expect="pol-kernel"),
         Mutant("polarised kernel blocks mispaired in get_k", DKR,
                "            kba = self.kernel(X1[1], self.X1ctrl[0])\n            k = kaa * kbb + kab * kba\n        else:\n            k = self.kernel(X1, self.X1ctrl)\n        if self.mode == \"SEP\":\n            k = k.T.reshape(self.Nctrl, nspin, Nsamp)\n        else:\n            k = k.T\n        return k\n",
                "            kba = self.kernel(X1[1], self.X1ctrl[0])\n            k = kaa * kab + kbb * kba\n        else:\n            k = self.kernel(X1, self.X1ctrl)\n        if self.mode == \"SEP\":\n            k = k.T.reshape(self.Nctrl, nspin, Nsamp)\n        else:\n            k = k.T\n        return k\n",
                expect="pol-kernel"),
-        Mutant("product rule factor swapped", DKR, "dkdX1b = dkbb * kaa + dkba * kab", "dkdX1b = dkbb * kab + dkba * kaa",
+        Mutant("product rule factor swapped", DKR, "dkdX1b = dkbb * kaa[..., None] + dkba * kab[..., None]", "dkdX1b = dkbb * kab[..., None] + dkba * kaa[..., None]",
                expect="pol-kernel"),
         Mutant("kctrl block on wrong spin", DKR, "kab = self.kernel(self.X1ctrl[0], self.X1ctrl[1])\n            kba = self.kernel(self.X1ctrl[1], self.X1ctrl[0])\n            k = kaa",
                "kab = self.kernel(self.X1ctrl[0], self.X1ctrl[1])\n            kba = self.kernel(self.X1ctrl[0], self.X1ctrl[1])\n            k = kaa", expect="pol-kernel"),
